@@ -2,7 +2,7 @@
     well-typed values of a key type; the representation of a key is its
     logical value. *)
 From Coq Require Import String.
-From Coq Require Import List NArith Bool Lia.
+From Coq Require Import List NArith PeanoNat Bool Lia.
 From Borsh Require Import Bytes BytesFacts Result Ty TyInd RoundTrip.
 Import ListNotations.
 Local Open Scope N_scope.
@@ -170,6 +170,8 @@ Proof.
   - destruct a as [x|la|i x], b as [y|lb|j y]; cbn [cmp_val]; try reflexivity.
     apply lex2_antisym. exact IH.
   - destruct a as [x|la|i x], b as [y|lb|j y]; cbn [cmp_val]; try reflexivity.
+    rewrite (N.compare_antisym (sum_rank k j) (sum_rank k i)).
+    destruct (sum_rank k j ?= sum_rank k i); cbn [CompOpp lex_cmp]; try reflexivity.
     rewrite (N.compare_antisym j i). destruct (j ?= i) eqn:E; cbn [CompOpp lex_cmp]; try reflexivity.
     apply N.compare_eq in E. subst j. apply nth_or_antisym. exact IH.
   - cbn [cmp_val]. apply IH.
@@ -255,6 +257,36 @@ Lemma has_ty_sum k vs i x : has_ty (TSum k vs) (VV i x) = true ->
   exists t, nth_error vs (N.to_nat i) = Some t /\ has_ty t x = true.
 Proof. cbn [has_ty]. apply nth_or_true. Qed.
 
+(** The order on the variants of a sum: by rank (the discriminant of a derived enum, the ordinal of
+    a built-in sum), then by ordinal. *)
+Definition vcmp (k : sum_kind) (i j : N) : comparison :=
+  lexm (sum_rank k i ?= sum_rank k j) (i ?= j).
+
+Lemma cmp_val_sum k vs i x j y :
+  cmp_val (TSum k vs) (VV i x) (VV j y)
+  = lexm (vcmp k i j) (nth_or (fun t' => cmp_val t' x y) Eq vs (N.to_nat i)).
+Proof.
+  cbn [cmp_val]. unfold vcmp. rewrite !lex_cmp_lexm.
+  destruct (sum_rank k i ?= sum_rank k j); reflexivity.
+Qed.
+
+Lemma vcmp_eq k i j : vcmp k i j = Eq -> i = j.
+Proof.
+  unfold vcmp. destruct (sum_rank k i ?= sum_rank k j); cbn [lexm]; try discriminate.
+  apply N.compare_eq.
+Qed.
+
+Lemma vcmp_lt_trans k i j l : vcmp k i j = Lt -> vcmp k j l = Lt -> vcmp k i l = Lt.
+Proof.
+  unfold vcmp. intros H1 H2.
+  refine (lexm_lt_trans (sum_rank k i ?= sum_rank k j) (sum_rank k j ?= sum_rank k l)
+            (sum_rank k i ?= sum_rank k l) _ _ _ _ _ _ _ H1 H2).
+  - intros E. apply N.compare_eq in E. now rewrite E.
+  - intros E. apply N.compare_eq in E. now rewrite E.
+  - rewrite !N.compare_lt_iff. lia.
+  - intros _ _. rewrite !N.compare_lt_iff. lia.
+Qed.
+
 Lemma sum_ord k vs : Forall (fun t => key_ok t = true -> ord_at t) vs ->
   forallb (fun x => key_ok x) vs = true -> ord_at (TSum k vs).
 Proof.
@@ -269,10 +301,10 @@ Proof.
     destruct c as [|lc|l z]; try discriminate.
     apply has_ty_sum in Ha, Hb, Hc.
     destruct Ha as (ti & Ei & Hx). destruct Hb as (tj & Ej & Hy). destruct Hc as (tl & El & Hz).
-    cbn [cmp_val]. rewrite !lex_cmp_lexm. intros H.
-    refine (lexm_eq_cong (i ?= j) (i ?= l) (j ?= l) _ _ _ _ _ H).
-    + intros E. apply N.compare_eq in E. now subst j.
-    + intros E1 E2. apply N.compare_eq in E1, E2. subst j l.
+    rewrite !cmp_val_sum. intros H.
+    refine (lexm_eq_cong (vcmp k i j) (vcmp k i l) (vcmp k j l) _ _ _ _ _ H).
+    + intros E. apply vcmp_eq in E. now subst j.
+    + intros E1 E2. apply vcmp_eq in E1, E2. subst j l.
       rewrite Ei in Ej, El. inversion Ej; subst tj. inversion El; subst tl.
       rewrite !(nth_or_some _ _ _ _ _ Ei).
       destruct (Hvs _ _ Ei) as [He _]. apply He; assumption.
@@ -282,12 +314,12 @@ Proof.
     destruct c as [|lc|l z]; try discriminate.
     apply has_ty_sum in Ha, Hb, Hc.
     destruct Ha as (ti & Ei & Hx). destruct Hb as (tj & Ej & Hy). destruct Hc as (tl & El & Hz).
-    cbn [cmp_val]. rewrite !lex_cmp_lexm. intros H1 H2.
-    refine (lexm_lt_trans (i ?= j) (j ?= l) (i ?= l) _ _ _ _ _ _ _ H1 H2).
-    + intros E. apply N.compare_eq in E. now subst j.
-    + intros E. apply N.compare_eq in E. now subst l.
-    + rewrite !N.compare_lt_iff. lia.
-    + intros E1 E2. apply N.compare_eq in E1, E2. subst j l.
+    rewrite !cmp_val_sum. intros H1 H2.
+    refine (lexm_lt_trans (vcmp k i j) (vcmp k j l) (vcmp k i l) _ _ _ _ _ _ _ H1 H2).
+    + intros E. apply vcmp_eq in E. now subst j.
+    + intros E. apply vcmp_eq in E. now subst l.
+    + apply vcmp_lt_trans.
+    + intros E1 E2. apply vcmp_eq in E1, E2. subst j l.
       rewrite Ei in Ej, El. inversion Ej; subst tj. inversion El; subst tl.
       rewrite !(nth_or_some _ _ _ _ _ Ei).
       destruct (Hvs _ _ Ei) as [_ Hl]. apply Hl; assumption.
@@ -418,7 +450,68 @@ Proof.
     all: cbn [has_ty] in Hv; cbn [logical]; now apply IH.
 Qed.
 
+(** * Which order it is on the variants of a sum
+
+    For a well-formed derived enum two values in different variants compare as their TAGS do (with
+    [use_discriminant = true] the tags are the Rust discriminants, which is what
+    [#[derive(PartialOrd, Ord)]] compares); the ordinal tie-break of [cmp_val] never decides.
+    Built-in sums compare by ordinal. *)
+Lemma nodup_n_nth tags : nodup_n tags = true ->
+  forall i j d d', (i < length tags)%nat -> (j < length tags)%nat -> nth i tags d = nth j tags d' -> i = j.
+Proof.
+  induction tags as [|a r IH]; intros H i j d d' Hi Hj E; cbn [length] in Hi, Hj; [lia|].
+  cbn [nodup_n] in H. apply andb_true_iff in H. destruct H as [Ha Hr].
+  apply negb_true_iff in Ha.
+  assert (Hnot : forall m d0, (m < length r)%nat -> nth m r d0 <> a).
+  { intros m d0 Hm E'. assert (Ht : existsb (N.eqb a) r = true); [|rewrite Ht in Ha; discriminate].
+    apply existsb_exists. exists (nth m r d0). split.
+    - now apply nth_In.
+    - rewrite E'. apply N.eqb_refl. }
+  destruct i as [|i], j as [|j]; cbn [nth] in E.
+  - reflexivity.
+  - exfalso. apply (Hnot j d'); [lia|]. now symmetry.
+  - exfalso. apply (Hnot i d); [lia|]. exact E.
+  - f_equal. apply (IH Hr i j d d'); [lia|lia|exact E].
+Qed.
+
+Lemma cmp_val_enum_tags nm vn tags vs i x j y :
+  wf (TSum (KEnum nm vn tags) vs) = true ->
+  (N.to_nat i < length vs)%nat -> (N.to_nat j < length vs)%nat -> i <> j ->
+  cmp_val (TSum (KEnum nm vn tags) vs) (VV i x) (VV j y)
+  = (nth (N.to_nat i) tags 0 ?= nth (N.to_nat j) tags 0).
+Proof.
+  intros Hwf Hi Hj Hne. cbn [wf sum_tags] in Hwf.
+  repeat (apply andb_true_iff in Hwf; destruct Hwf as [Hwf ?]).
+  apply Nat.eqb_eq in Hwf. rewrite <- Hwf in Hi, Hj.
+  cbn [cmp_val sum_rank].
+  rewrite (nth_indep tags i 0 Hi), (nth_indep tags j 0 Hj).
+  destruct (nth (N.to_nat i) tags 0 ?= nth (N.to_nat j) tags 0) eqn:E; cbn [lex_cmp]; try reflexivity.
+  exfalso. apply Hne. apply N.compare_eq in E.
+  apply N2Nat.inj. eapply nodup_n_nth; eassumption.
+Qed.
+
+Lemma cmp_val_builtin_ordinal k vs i x j y :
+  match k with KEnum _ _ _ => False | _ => True end -> i <> j ->
+  cmp_val (TSum k vs) (VV i x) (VV j y) = (i ?= j).
+Proof.
+  intros Hk Hne. cbn [cmp_val].
+  replace (sum_rank k i) with i by (destruct k; try reflexivity; contradiction).
+  replace (sum_rank k j) with j by (destruct k; try reflexivity; contradiction).
+  destruct (i ?= j) eqn:E; cbn [lex_cmp]; try reflexivity.
+  now apply N.compare_eq in E.
+Qed.
+
+(** [#[borsh(use_discriminant = true)] enum KDesc { A = 5, B = 1, C = 3 }]: B < C < A. *)
+Example kdesc_order :
+  let t := TSum (KEnum "KDesc" ["A"; "B"; "C"]%string [5; 1; 3]) [TUnit UUnit; TUnit UUnit; TUnit UUnit] in
+  cmp_val t (VV 1 (VL [])) (VV 2 (VL [])) = Lt /\ cmp_val t (VV 2 (VL [])) (VV 0 (VL [])) = Lt /\
+  has_ty (TSeq SBTreeSet t) (VL [VV 1 (VL []); VV 2 (VL []); VV 0 (VL [])]) = true /\
+  has_ty (TSeq SBTreeSet t) (VL [VV 0 (VL []); VV 1 (VL []); VV 2 (VL [])]) = false.
+Proof. repeat split. Qed.
+
 Print Assumptions cmp_val_antisym.
+Print Assumptions cmp_val_enum_tags.
+Print Assumptions cmp_val_builtin_ordinal.
 Print Assumptions cmp_val_eq_cong.
 Print Assumptions cmp_val_lt_trans.
 Print Assumptions cmp_val_refl.
